@@ -260,6 +260,48 @@ fn stream_a(src: &mut Src, ctx: &mut Ctx) -> Outcome {
             }
         }
     }
+    // (f) drawn last. The same laws with the reference envelope as the SUBJECT of an outer node (the
+    // shape decoding, uncompress_subject and decrypt_subject produce): add-then-remove restores, removing
+    // the last outer assertion yields the reference itself; and replacing an assertion by an equal one,
+    // or by an obscured rendition of itself, is the same as having built the envelope with that rendition
+    if src.chance(70) && k > 0 {
+        ctx.class("laws-on-node-subject");
+        let outer_a = Envelope::new_assertion("C07-outer", src.below(100) as u64);
+        let outer_b = Envelope::new_assertion("C07-outer-2", src.below(100) as u64);
+        let ns = reference.compress().and_then(|c| c.add_assertion_envelope(outer_a.clone())).and_then(|c| c.uncompress_subject());
+        if let Ok(ns) = ns {
+            let ns_bytes = ns.to_cbor_data();
+            let expect = M::Node(Box::new(rm.clone()), vec![M::assertion(M::text("C07-outer"), bridge::read_out(&outer_a.as_object().unwrap()).unwrap())]);
+            check!(ctx, ns_bytes == expect.tagged(), "node-subject", "C07/node-subject/build", "node-as-subject envelope differs from the specification encoding");
+            let added = nopanic!(ctx, ns.add_assertion_envelope(outer_b.clone()), "node-subject", "C07/node-subject/add-remove");
+            let added = tryp!(ctx, added.map_err(|x| x.to_string()), "node-subject", "C07/node-subject/add-remove");
+            let back = nopanic!(ctx, added.remove_assertion(outer_b.clone()), "node-subject", "C07/node-subject/add-remove");
+            check!(ctx, back.to_cbor_data() == ns_bytes, "node-subject", "C07/node-subject/add-remove", "add-then-remove on an envelope whose subject is a node did not restore it: {} vs {}", hex::encode(back.to_cbor_data()), hex::encode(&ns_bytes));
+            let other = nopanic!(ctx, added.remove_assertion(outer_a.clone()), "node-subject", "C07/node-subject/add-remove");
+            let expect2 = M::Node(Box::new(rm.clone()), vec![M::assertion(M::text("C07-outer-2"), bridge::read_out(&outer_b.as_object().unwrap()).unwrap())]);
+            check!(ctx, other.to_cbor_data() == expect2.tagged(), "node-subject", "C07/node-subject/add-remove", "removing one of two outer assertions did not leave the node subject with the other one");
+            let bare = nopanic!(ctx, ns.remove_assertion(outer_a.clone()), "node-subject", "C07/node-subject/remove-last");
+            check!(ctx, bare.to_cbor_data() == ref_bytes, "node-subject", "C07/node-subject/remove-last", "removing the last outer assertion did not yield the subject (the reference envelope)");
+        }
+        // replace by an equal assertion / by a rendition with the same digest
+        let i = src.below(k);
+        let a = &built[i];
+        if built.iter().enumerate().any(|(j, x)| j != i && x.digest() == a.digest()) {
+            // the multiset holds this assertion in two renditions: which one the reference keeps depends on
+            // the insertion order, so "the envelope built with that rendition" is not a single thing
+            ctx.nontrivial = k >= 2;
+            return Outcome::Pass;
+        }
+        let same = nopanic!(ctx, reference.replace_assertion(a.clone(), a.clone()), "replace-equal", "C07/replace-equal");
+        let same = tryp!(ctx, same.map_err(|x| x.to_string()), "replace-equal", "C07/replace-equal");
+        check!(ctx, same.to_cbor_data() == ref_bytes, "replace-equal", "C07/replace-equal", "replacing assertion #{} by itself changed the envelope {}", i, model.show());
+        let rendition = if a.is_obscured() { a.clone() } else { a.elide() };
+        let swapped = nopanic!(ctx, reference.replace_assertion(a.clone(), rendition.clone()), "replace-equal", "C07/replace-equal");
+        let swapped = tryp!(ctx, swapped.map_err(|x| x.to_string()), "replace-equal", "C07/replace-equal");
+        let others: Vec<usize> = (0..k).filter(|x| *x != i).collect();
+        let direct = add_in_order(&subject, &built, &others, 0).add_assertion_envelope(rendition).unwrap();
+        check!(ctx, swapped.to_cbor_data() == direct.to_cbor_data() && swapped.digest() == reference.digest(), "replace-equal", "C07/replace-equal", "replacing assertion #{} by its elided rendition is not the envelope built with that rendition ({})", i, model.show());
+    }
     ctx.nontrivial = k >= 2;
     Outcome::Pass
 }
